@@ -105,10 +105,13 @@ def fillStyle (s : Surface) (st : Nat) : Surface :=
 /-! ### render -/
 
 /-- `for i, cell := range s.Buffer { row := i / int(W); col := i % int(W); win.SetCell(col,row,cell) }`
-for `W ≠ 0`. -/
-def cellOps (w : UInt16) (buf : List Cell) : List Op :=
-  (List.range buf.length).zip buf |>.map fun (i, c) =>
-    { col := Int.ofNat (i % w.toNat), row := Int.ofNat (i / w.toNat), cell := c }
+for `W ≠ 0`, from index `i` on. -/
+def cellOpsFrom (w : UInt16) : Nat → List Cell → List Op
+  | _, [] => []
+  | i, c :: rest =>
+      { col := Int.ofNat (i % w.toNat), row := Int.ofNat (i / w.toNat), cell := c } :: cellOpsFrom w (i + 1) rest
+
+def cellOps (w : UInt16) (buf : List Cell) : List Op := cellOpsFrom w 0 buf
 
 /-- Stable insertion by key: `sortByZ (x :: rest)` puts `x` before the already sorted later
 elements of equal key.  (Go's `sort.Slice` is an insertion sort — stable — below 12 elements; for
